@@ -15,8 +15,8 @@ def jobs(tier):
         Job("types", M, "h_types", dict(C05_NTYPES_ALL=6), shards=61, timeout=t),
     ]
   return [
-      Job("func", M, "h_func", dict(C05_MAXP=2, C05_NTYPES=18), shards=509, timeout=t),
-      Job("class", M, "h_class", dict(C05_NTYPES=18), shards=509, timeout=t),
+      Job("func", M, "h_func", dict(C05_MAXP=2, C05_NTYPES=6), shards=509, timeout=t),
+      Job("class", M, "h_class", dict(C05_NTYPES=5), shards=251, timeout=t),
       Job("types", M, "h_types", dict(C05_NTYPES_ALL=18), shards=509, timeout=t),
   ]
 
